@@ -58,6 +58,12 @@ def cases(tier):
                 yield Case("real2d:N=%d:d=%g:%s" % (N, d, path),
                            {"kind": "real2d", "N": N, "delta": d, "path": path}, N >= 2)
         yield Case("storage:%s" % path, {"kind": "storage", "path": path})
+        # size classes beyond the exhaustive range (FFT back ends switch algorithm with size and with large prime
+        # factors): full 1-D operators, and for 2-D the transforms of all unit impulses in three rows
+        for N in ((64, 65, 129, 130, 257) if tier == "quick" else (64, 65, 129, 130, 257, 521, 1024, 1025)):
+            yield Case("1d:N=%d:d=0.5:%s" % (N, path), {"kind": "1d", "N": N, "delta": 0.5, "path": path})
+        for N in ((33, 64, 130) if tier == "quick" else (33, 64, 65, 130, 257)):
+            yield Case("2dbig:N=%d:%s" % (N, path), {"kind": "2dbig", "N": N, "delta": 0.5, "path": path})
         for N in ((32, 33) if tier == "quick" else (32, 33, 64, 65, 127, 128)):
             yield Case("gauss:N=%d:%s" % (N, path), {"kind": "gauss", "N": N, "path": path})
 
@@ -95,6 +101,8 @@ def evaluate(p):
         scale_f, scale_i, pars = d * d, df * df, (d / df) ** 2
     elif kind == "real1d":
         return _real(o, ns, N, d, df, 1)
+    elif kind == "2dbig":
+        return _big2d(o, ns, N, d, df)
     else:
         return _real(o, ns, N, d, df, 2)
     n = int(numpy.prod(shape))
@@ -134,6 +142,40 @@ def evaluate(p):
                 worst = max(worst, _maxabs(Y[idx] - y1) / max(_maxabs(y1), 1e-300))
     o.close("batch_per_item", worst, TOL)
     o.outcome(numpy.round(F / scale_f, 6))
+    return o
+
+
+def _big2d(o, ns, N, d, df):
+    """2-D transforms of size N: the images of all unit impulses in the first, the centre and the last row (real and
+    imaginary unit), against the outer product of the centred 1-D DFT columns; inverse on the same; one dense field
+    by superposition of those"""
+    F1, G1 = dft.centred_dft(N, d), dft.centred_idft(N, df)
+    worst_f = worst_i = worst_rt = 0.0
+    rows = (0, N // 2, N - 1)
+    acc_in = numpy.zeros((N, N), dtype=complex)
+    acc_out = numpy.zeros((N, N), dtype=complex)
+    for i in rows:
+        for j in range(N):
+            e = numpy.zeros((N, N), dtype=complex)
+            e[i, j] = 1.0 if (i + j) % 2 else 1j
+            Y = numpy.asarray(ns.ft2(e.copy(), d))
+            want = e[i, j] * numpy.outer(F1[:, i], F1[:, j])
+            worst_f = max(worst_f, _maxabs(Y - want) / (d * d))
+            Z = numpy.asarray(ns.ift2(e.copy(), df))
+            worst_i = max(worst_i, _maxabs(Z - e[i, j] * numpy.outer(G1[:, i], G1[:, j])) / (df * df))
+            back = numpy.asarray(ns.ift2(Y, df))
+            worst_rt = max(worst_rt, _maxabs(back - e))
+            c = (1 + (i * 3 + j * 7) % 5) * (1 - 2 * ((i + j) % 3 == 0))
+            acc_in += c * e
+            acc_out += c * want
+            o.stat("lib_calls", 3)
+    o.close("centred_forward", worst_f, TOL)
+    o.close("centred_inverse", worst_i, TOL)
+    o.close("inverse_ift_ft", worst_rt, TOL)
+    Y = numpy.asarray(ns.ft2(acc_in.copy(), d))
+    o.stat("lib_calls", 1)
+    o.close("superposition", _maxabs(Y - acc_out) / (d * d) / (4.0 * 3 * N), TOL)
+    o.close("parseval", abs(numpy.sum(numpy.abs(Y) ** 2) * df * df / (numpy.sum(numpy.abs(acc_in) ** 2) * d * d) - 1.0), TOL)
     return o
 
 
